@@ -138,7 +138,7 @@ pub fn spaces(tier: &str) -> Vec<Box<dyn Space>> {
     // chained sequences over the full menu (including erroring packets), n <= 3 (thorough 4), 4 prior states
     let maxlen = if thorough { 4 } else { 3 };
     let nl = crate::alphabet::list_count(menu::TOTAL, maxlen);
-    let chains = family(&format!("chains<={}-over-19-packet-menu x 4 prior states", maxlen), nl * 4, move |i| {
+    let chains = family(&format!("chains<={}-over-22-packet-menu x 4 prior states", maxlen), nl * 4, move |i| {
         let seq = crate::alphabet::list_at(menu::TOTAL, maxlen, i % nl);
         Case { prior: menu::prior_state((i / nl) as usize), input: menu::chain(&seq) }
     });
@@ -167,7 +167,7 @@ pub fn run(tier: &str) -> i32 {
         prop: "C02".into(),
         tier: tier.into(),
         level: "model_checking",
-        rule: "every case of families A (grammar product), B (single-byte deviations x 256 values, truncations, structural deviations), D (tiny buffers) and all chains of <= 3 (thorough 4) packets over the 19-packet menu x 4 prior cache states, each under every allowed set of the stated menu; the oracle is computed from the input bytes and the returned list only (cursor walk with the wire length implied by each packet's own header). A case is distinct by (sequence of (version, implied length), input length)".into(),
+        rule: "every case of families A (grammar product), B (single-byte deviations x 256 values, truncations, structural deviations), D (tiny buffers) and all chains of <= 3 (thorough 4) packets over the 22-packet menu x 4 prior cache states, each under every allowed set of the stated menu; the oracle is computed from the input bytes and the returned list only (cursor walk with the wire length implied by each packet's own header). A case is distinct by (sequence of (version, implied length), input length)".into(),
         bounds: json!({"allowed_sets": if thorough {"all 16 subsets of {5,7,9,10} x {none,{6},{0,11,65535}} = 48"} else {"16 subsets + 2 widened (18); 48 for chains"}, "chain_len": if thorough {4} else {3}}),
         assumptions: vec!["cases on which parse_bytes panics are skipped here (tag) and reported by C01".into()],
         trusted_base: vec!["c02::decomposition_issues".into()],
